@@ -151,7 +151,7 @@ func (r *Runner) RandomTree(leaves []Q, depth int) Q {
 
 // Filter evaluates one filter query on the real shard and logs the answer.
 func (r *Runner) Filter(q Q) {
-	res, err := r.Shard.SearchPoints(models.SearchRequest{Query: copyQuery(q.Real), Limit: 100})
+	res, err := r.Shard.SearchPoints(models.SearchRequest{Query: copyQuery(q.Real), Limit: 100000})
 	if err != nil {
 		r.obsErr("Filter", err)
 		return
